@@ -666,6 +666,11 @@ func runC01(c c01Case) (fail string, stats map[string]bool) {
 			return fmt.Sprintf("session open and client reading, but sender %d's messages from seq %d on (of %d) never arrived; received %s; session closes %v", s, cw.seen[s], len(cw.sent[s]), seqString(cw.recv), cw.sr.Closes), stats
 		}
 	}
+	if c01After != nil {
+		if f := c01After(cw); f != "" {
+			return f, stats
+		}
+	}
 	// cross-check: flush events carried every accepted send exactly once
 	nFlushed := 0
 	for _, e := range cw.sr.Events {
@@ -746,6 +751,9 @@ func TestC01Outbound(t *testing.T) {
 	}
 	col.RequireClasses(t, req...)
 }
+
+// c01After, when set, inspects the finished world of a C01 history (used by C18).
+var c01After func(cw *c01World) string
 
 var _ = bytes.Equal
 
